@@ -211,7 +211,7 @@ def step (st : State) (w : List String) : State × String :=
     | some flags, some proto, some alg, some pkb, some dtn, some wantb, some refb =>
       (st, boolStr (dsDigestMatches b64Decode (fun _ _ => refb) limit maxMat (some []) flags proto alg pkb dtn wantb))
     | _, _, _, _, _, _, _ => (st, "bad-op")
-  | ["dsv", "verify", ks, ds, rs] =>
+  | ["dsv", "verify", ks, ds, rs, gv] =>
     match parseDKeys ks rs, parseDSRecs ds with
     | some kr, some dl =>
       let keys := kr.map (·.1)
@@ -235,7 +235,15 @@ def step (st : State) (w : List String) : State × String :=
             | none => false)
           String.intercalate "." ((idx.map firstOf).eraseDups.map toString)
         else "-"
-      (st, s!"unsup={boolStr r.1} ok={boolStr r.2} anch={anch}")
+      let gov : Gov := match (gv.drop 2).toString.splitOn "," |>.map String.toNat? with
+        | [some a, some b] => { maxCand := a, maxSet := 0, budget := b }
+        | _ => { maxCand := 0, maxSet := 0, budget := 0 }
+      let wr := verifyDSWork supportedDS dmatch limit keys gov dl
+      let wstr := match wr.1 with
+        | WRes.ok => "ok"
+        | WRes.fail => "fail"
+        | WRes.work => "work"
+      (st, s!"unsup={boolStr r.1} ok={boolStr r.2} anch={anch} w={wstr}:{wr.2}")
     | _, _ => (st, "bad-op")
   | ["vfy", "sig", k, sg, rr, o, c, sw, h, x] =>
     match parseVKey (k.drop 2).toString, parseVSig (sg.drop 2).toString,
